@@ -61,6 +61,13 @@ func runC09(r *drv.Run) drv.Spec {
 			items = append(items, sd...)
 		}
 	}
+	// GIFs without any colour table (the decoder's default palette lives in
+	// memory that LEAVE_INTERNAL_BUFFERS_UNINITIALIZED does not clear)
+	for i := 0; i < 2*nsd; i++ {
+		if g := corpus.GIFNoPaletteItem(vk.CaseRNG(r.Seed, 0, "c09gifnopal", int64(i)), i%2 == 1); g != nil {
+			items = append(items, g)
+		}
+	}
 	if err := corpus.WriteItems(r.Scratch+"/c09", items, "v"); err != nil {
 		drv.Fatal("%v", err)
 	}
